@@ -10,6 +10,7 @@ import props
 rows = []
 work = tempfile.mkdtemp(prefix="anthem-seeds-")
 env = dict(os.environ, VERIF_BUILD=os.path.join(work, "build"), VERIF_EVIDENCE_DIR=os.path.join(work, "evidence"), VERIF_REPLAY_DIR=os.path.join(work, "replays"))
+only = set(sys.argv[1:])   # optional: seed ids (prefixes) to re-run; the others keep the verdicts stored in their meta.json
 for sid in sorted(os.listdir(os.path.join(VERIF, "seeded"))):
     d = os.path.join(VERIF, "seeded", sid)
     mp = os.path.join(d, "meta.json")
@@ -17,6 +18,10 @@ for sid in sorted(os.listdir(os.path.join(VERIF, "seeded"))):
         continue
     meta = json.load(open(mp))
     prop = meta["property"]
+    if only and not any(sid.startswith(o) for o in only):
+        v = meta.get("detected_by", {}).get("checks", {})
+        rows.append((sid, prop, "; ".join(f"{p}: {x}" for p, x in v.items()) or "(not run)", v))
+        continue
     src = os.path.join(work, "repo")
     shutil.rmtree(src, ignore_errors=True)
     os.makedirs(src)
